@@ -503,8 +503,17 @@ func (w *World) tagContext(op Op) {
 	}
 	switch op.K {
 	case "TIMER_PH":
-		if len(inflightSwaps(w.findApp(op.A))) > 0 {
+		app := w.findApp(op.A)
+		if len(inflightSwaps(app)) > 0 {
 			w.Mem["ctx:ph-timeout-during-swap"] = "1"
+		}
+		if app != nil && !app.IsRunning() && !app.IsCompleting() {
+			for _, a := range app.GetAllAllocations() {
+				if !a.IsPlaceholder() {
+					// the "nothing is running yet" branch of the timeout with a real allocation present
+					w.Mem["ctx:ph-timeout-real-allocation-not-running"] = "1"
+				}
+			}
 		}
 	case "TIMER_STATE":
 		if len(inflightSwaps(w.findApp(op.A))) > 0 {
